@@ -176,21 +176,20 @@ static uint64_t stamp()
   return vfs::sched().steps * 2 + 1;  // logical time = scheduler step (the running thread holds the baton)
 }
 
-static void run_queue_schedule(uint64_t seed)
+struct QueueRun
+{
+  uint64_t steps  = 0;
+  bool infeasible = false;
+  std::vector<signed char> running;
+  std::vector<unsigned char> live;
+};
+
+// Execute one schedule of configuration c.  script == nullptr: seeded random / PCT schedule; otherwise the
+// scripted bounded-preemption policy with exactly these (step, thread) preemptions.
+static QueueRun execute_queue(const QueueCfg &c, int consumer_style, uint64_t seed,
+                              const std::vector<std::pair<uint64_t, int>> *script, const std::string &mode)
 {
   auto &R = vf::report();
-  Rng r(seed);
-  QueueCfg c;
-  c.capacity  = static_cast<size_t>(r.range(1, 3));
-  c.producers = static_cast<int>(r.range(1, 3));
-  for (int p = 0; p < c.producers; ++p)
-    c.adds.push_back(static_cast<int>(r.range(1, 6)));
-  c.policy       = static_cast<int>(r.below(2));
-  c.pct_depth    = c.policy ? static_cast<int>(r.range(1, 3)) : 0;
-  static const uint32_t spur[] = {0, 125000, 500000};
-  c.spurious_ppm = r.pick(spur);
-  int consumer_style = static_cast<int>(r.below(3));
-
   int64_t live_before = g_live.load();
   QueueHistory h;
   h.adds.resize(static_cast<size_t>(c.producers));
@@ -198,7 +197,9 @@ static void run_queue_schedule(uint64_t seed)
     h.adds[static_cast<size_t>(p)].resize(static_cast<size_t>(c.adds[static_cast<size_t>(p)]));
   int nthreads = c.producers + 1;
   auto &S      = vfs::sched();
-  S.reset(nthreads, seed, c.policy, c.pct_depth, c.spurious_ppm);
+  S.reset(nthreads, seed, script ? 2 : c.policy, c.pct_depth, c.spurious_ppm);
+  if (script)
+    S.script = *script;
   bool size_violation = false;
   S.on_stuck = [&] {
     R.violation("no-progress", "queue",
@@ -236,7 +237,7 @@ static void run_queue_schedule(uint64_t seed)
           a.ok    = ok;
           a.kept  = !ok && e.get() == raw;
           if (ok && e)
-            R.violation("successful-add-takes-element", "serial", "Add succeeded but the caller still owns an element");
+            R.violation("successful-add-takes-element", mode, "Add succeeded but the caller still owns an element");
           a.ret = stamp() + 1;
           vfs::point(6);
         }
@@ -268,7 +269,7 @@ static void run_queue_schedule(uint64_t seed)
           // Peek must show exactly the elements a following Consume delivers
           auto range = buf.Peek();
           if (range.size() < sz)
-            R.violation("peek-consistent", "serial", "Peek showed fewer elements than size() had reported; " + c.describe());
+            R.violation("peek-consistent", mode, "Peek showed fewer elements than size() had reported; " + c.describe());
         }
         h.consume_calls.push_back(stamp());
         std::vector<std::pair<uint32_t, uint32_t>> got;
@@ -303,26 +304,31 @@ static void run_queue_schedule(uint64_t seed)
   if (!S.stuck)
   {
     if (live_after != live_before)
-      R.violation("no-leak-no-double-free", live_after > live_before ? "serial:leak" : "serial:double-free",
+      R.violation("no-leak-no-double-free", live_after > live_before ? mode + ":leak" : mode + ":double-free",
                   "live element instances " + std::to_string(live_after - live_before) + " after the buffer was destroyed; " +
                       c.describe());
     if (g_double_free.load())
     {
-      R.violation("no-leak-no-double-free", "serial:double-free", "an element was destroyed twice; " + c.describe());
+      R.violation("no-leak-no-double-free", mode + ":double-free", "an element was destroyed twice; " + c.describe());
       g_double_free.store(0);
     }
     if (size_violation)
-      R.violation("size-le-capacity", "serial", "queued count exceeded the capacity at some step; " + c.describe());
-    check_queue_history(c, h, "serial");
+      R.violation("size-le-capacity", mode, "queued count exceeded the capacity at some step; " + c.describe());
+    check_queue_history(c, h, mode);
+  }
+  QueueRun qr;
+  qr.steps      = S.steps;
+  qr.infeasible = S.script_infeasible;
+  if (script)
+  {
+    qr.running = S.trace_running;
+    qr.live    = S.trace_live;
+    R.count("enum_runs");
+    R.signature(S.hash ^ 0xe11);
+    return qr;
   }
   if (S.steps > 5000)
-  {
     R.count("queue_schedules_over_5000_steps");
-    if (getenv("VF_DEBUG"))
-      fprintf(stderr, "long schedule: case=%llu steps=%llu %s consumer_style=%d\n",
-              static_cast<unsigned long long>(R.current_case()), static_cast<unsigned long long>(S.steps),
-              c.describe().c_str(), consumer_style);
-  }
   R.count("queue_schedules");
   R.count("queue_steps", S.steps);
   R.maxi("max_steps_per_schedule", S.steps);
@@ -341,6 +347,94 @@ static void run_queue_schedule(uint64_t seed)
   if (R.want_sample(4))
     R.sample("schedule: " + c.describe() + " steps=" + std::to_string(S.steps) + " switches=" + std::to_string(S.switches) +
              " hash=" + std::to_string(S.hash));
+  return qr;
+}
+
+static void run_queue_schedule(uint64_t seed)
+{
+  Rng r(seed);
+  QueueCfg c;
+  c.capacity  = static_cast<size_t>(r.range(1, 3));
+  c.producers = static_cast<int>(r.range(1, 3));
+  for (int p = 0; p < c.producers; ++p)
+    c.adds.push_back(static_cast<int>(r.range(1, 6)));
+  c.policy       = static_cast<int>(r.below(2));
+  c.pct_depth    = c.policy ? static_cast<int>(r.range(1, 3)) : 0;
+  static const uint32_t spur[] = {0, 125000, 500000};
+  c.spurious_ppm = r.pick(spur);
+  int consumer_style = static_cast<int>(r.below(3));
+  execute_queue(c, consumer_style, seed, nullptr, "serial");
+}
+
+// ---------------------------------------------------------------------------------------------
+// bounded-preemption enumeration: every schedule of a tiny configuration that can be produced by running
+// threads to completion (or to a voluntary yield) plus at most K preemptions, each at any step to any other
+// live thread.  Complete for that bound under sequential consistency; recorded as an exhaustive sub-space.
+// ---------------------------------------------------------------------------------------------
+static uint64_t enumerate_rec(const QueueCfg &c, int style, std::vector<std::pair<uint64_t, int>> &script,
+                              uint64_t from_step, int depth, int K, uint64_t &budget, bool &capped)
+{
+  if (budget == 0)
+  {
+    capped = true;
+    return 0;
+  }
+  --budget;
+  QueueRun qr = execute_queue(c, style, 12345, &script, "enum");
+  uint64_t runs = 1;
+  if (qr.infeasible || depth == K)
+    return runs;
+  int nthreads = c.producers + 1;
+  for (uint64_t s = std::max<uint64_t>(from_step, 1); s < qr.running.size(); ++s)
+  {
+    int me = qr.running[s];
+    if (me < 0)
+      continue;
+    for (int t = 0; t < nthreads; ++t)
+    {
+      if (t == me || !(qr.live[s] & (1u << t)))
+        continue;
+      script.emplace_back(s, t);
+      runs += enumerate_rec(c, style, script, s + 1, depth + 1, K, budget, capped);
+      script.pop_back();
+      if (capped)
+        return runs;
+    }
+  }
+  return runs;
+}
+
+static void run_queue_enumeration(uint64_t index, bool thorough)
+{
+  auto &R = vf::report();
+  struct Tiny
+  {
+    size_t cap;
+    std::vector<int> adds;
+    int style;
+  };
+  static const std::vector<Tiny> tiny = {
+      {1, {1, 1}, 0}, {1, {2}, 1}, {1, {2, 1}, 0}, {2, {2, 1}, 1}, {1, {1, 1, 1}, 0},
+      {2, {2, 2}, 0}, {1, {3}, 2}, {2, {3, 1}, 2}, {1, {2, 2}, 1}, {3, {2, 2}, 0},
+  };
+  const Tiny &t = tiny[index % tiny.size()];
+  QueueCfg c;
+  c.capacity  = t.cap;
+  c.producers = static_cast<int>(t.adds.size());
+  c.adds      = t.adds;
+  c.policy    = 2;
+  int K       = thorough ? 3 : 2;
+  uint64_t budget = thorough ? 400000 : 40000;
+  bool capped     = false;
+  std::vector<std::pair<uint64_t, int>> script;
+  uint64_t runs = enumerate_rec(c, t.style, script, 1, 0, K, budget, capped);
+  R.count("enum_configs");
+  R.count(capped ? "enum_configs_capped" : "enum_configs_exhausted");
+  R.maxi("enum_max_runs_per_config", runs);
+  R.nontrivial(vf::mix(0xe11, index % tiny.size() + 100 * static_cast<uint64_t>(K)));
+  if (R.want_sample(6))
+    R.sample("enumeration: " + c.describe() + " consumer_style=" + std::to_string(t.style) + " preemption bound " +
+             std::to_string(K) + ": " + std::to_string(runs) + " schedules" + (capped ? " (capped)" : " (complete)"));
 }
 
 static void run_lock_schedule(uint64_t seed)
@@ -431,7 +525,10 @@ int main(int argc, char **argv)
   auto &R = vf::report();
   R.init("C11", argc, argv);
   R.run_cases([&](uint64_t i) {
-    if (i % 5 == 4)
+    uint64_t enum_every = static_cast<uint64_t>(R.opt.param("enum_every", 2000));
+    if (enum_every && i % enum_every == 7)
+      run_queue_enumeration(i / enum_every, R.opt.thorough);
+    else if (i % 5 == 4)
       run_lock_schedule(R.case_seed(i));
     else
       run_queue_schedule(R.case_seed(i));
